@@ -317,11 +317,15 @@ func (client *client) writeLoop() {
 				case packet := <-client.out:
 					switch packet.(type) {
 					case *packets.Disconnect:
-						_ = client.writePacket(packet)
+						if client.writePacket(packet) == nil {
+							srv.statsManager.packetSent(packet, client.opts.ClientID)
+						}
 						_ = client.rwc.Close()
 						return
 					case *packets.Connack:
-						_ = client.writePacket(packet)
+						if client.writePacket(packet) == nil {
+							srv.statsManager.packetSent(packet, client.opts.ClientID)
+						}
 					}
 				default:
 					return
